@@ -310,7 +310,7 @@ Fixpoint nodupN (l : list N) : bool := match l with [] => true | x :: r => negb 
 Definition inst_mux_ok (mag0 : N) (pn0 : Z) (im : inst * imux) : bool :=
   let (i, m) := im in
   is_our_header mag0 pn0 (i_cs i) (im_hdr m)
-  && nodupN (map fst (i_rows i)) && forallb (fun r => rowspec_ok (snd r)) (i_rows i)
+  && nodupN (map fst (i_rows i)) && forallb (fun r => rowspec_ok (snd r) && (fst r <? 256)) (i_rows i)
   && body_ok mag0 pn0 (i_rows i) (im_body m)
   && match im_tail m with
      | Some (tm, dead) => is_terminator mag0 pn0 (snd tm) && forallb (fun x => dead_ok mag0 pn0 (snd x)) dead
